@@ -156,6 +156,92 @@ async fn run_one(path: Path, pttl_script: Option<Vec<u8>>, real_ttl_ms: Option<u
     Ok(Obs { restore_ttl, final_dst_pttl, client_reply, panicked: false })
 }
 
+/// What the source answers for one key of a scan batch: (PTTL reply, DUMP has a payload).
+/// The combinations where the two answers disagree model a key that expires, is deleted or is
+/// created between the pipelined PTTL and DUMP (the two commands are not atomic).
+const BATCH_ANSWERS: [(i64, bool); 6] = [(-2, false), (-2, true), (-1, true), (-1, false), (5000, true), (7, false)];
+
+/// Batch family: `answers.len()` keys of the migrating range sit in ONE scan batch (scan count 16,
+/// the stand-in scans in insertion order); returns per key the (ttl argument, payload is the key's own)
+/// of every RESTORE that reached the destination.
+async fn run_batch(answers: Vec<(i64, bool)>) -> Result<Vec<Vec<(String, bool)>>, String> {
+    let cfg = BrokerCfg { ordered: false, migration_limit: 0, failure_quorum: 1, failure_ttl: 100000 };
+    let sim = ClusterSim::new(&[2, 2], &cfg, &ProxyOpts::default(), None);
+    for op in [Op::AddCluster { name: "c1".into(), n: 4 }, Op::AutoAddNodes { name: "c1".into(), n: 4 }, Op::MigrateSlots { name: "c1".into() }] {
+        let r = sim.apply(&op);
+        if !r.starts_with("OK") {
+            return Err(format!("{:?} -> {}", op, r));
+        }
+    }
+    let mig = first_migration(&sim).ok_or("no migration")?;
+    let all = crate::util::slot_keys();
+    let keys: Vec<Vec<u8>> = (0..answers.len()).map(|i| all[mig.lo + 1 + i].clone()).collect();
+    let (k2, a2) = (keys.clone(), answers.clone());
+    sim.world.with_redis(&mig.src_node, move |r, now| {
+        for (i, k) in k2.iter().enumerate() {
+            r.exec(&vec![b"SET".to_vec(), k.clone(), format!("value-{}", i).into_bytes()], now);
+        }
+        let k3 = k2.clone();
+        r.script = Some(Box::new(move |c: &Cmd| {
+            if c.len() != 2 {
+                return None;
+            }
+            let i = k3.iter().position(|k| *k == c[1])?;
+            if c[0].eq_ignore_ascii_case(b"PTTL") {
+                Some(Resp::Integer(a2[i].0.to_string().into_bytes()))
+            } else if c[0].eq_ignore_ascii_case(b"DUMP") && !a2[i].1 {
+                Some(Resp::Bulk(undermoon::protocol::BulkStr::Nil))
+            } else {
+                None
+            }
+        }));
+    });
+    sim.sync_until_converged(false, 4).await?;
+    // run until the network has been silent for 40 ms (the scan polls every 10 ms at most)
+    let mut quiet = 0;
+    let mut seen = sim.world.events_since(0).len();
+    for _ in 0..40 {
+        sim.world.advance_ms(10).await;
+        let n = sim.world.events_since(0).len();
+        quiet = if n == seen { quiet + 1 } else { 0 };
+        seen = n;
+        if quiet >= 4 {
+            break;
+        }
+    }
+    let ev = sim.world.events_since(0);
+    let mut out = vec![];
+    for (i, k) in keys.iter().enumerate() {
+        let mut v = vec![];
+        for e in ev.iter().filter(|e| e.kind == "redis" && e.at == mig.dst_node && e.cmd.first().map(|c| c.eq_ignore_ascii_case(b"RESTORE")).unwrap_or(false) && e.cmd.get(1) == Some(k)) {
+            let ttl = e.cmd.get(2).map(|t| String::from_utf8_lossy(t).to_string()).unwrap_or_default();
+            let own = e.cmd.get(3).map(|p| p.ends_with(format!("value-{}", i).as_bytes())).unwrap_or(false);
+            v.push((ttl, own));
+        }
+        out.push(v);
+    }
+    Ok(out)
+}
+
+fn batch_cases(thorough: bool) -> Vec<Vec<(i64, bool)>> {
+    let n = BATCH_ANSWERS.len();
+    let mut v = vec![];
+    for a in 0..n {
+        for b in 0..n {
+            v.push(vec![BATCH_ANSWERS[a], BATCH_ANSWERS[b]]);
+            for c in 0..n {
+                v.push(vec![BATCH_ANSWERS[a], BATCH_ANSWERS[b], BATCH_ANSWERS[c]]);
+                if thorough {
+                    for d in 0..n {
+                        v.push(vec![BATCH_ANSWERS[a], BATCH_ANSWERS[b], BATCH_ANSWERS[c], BATCH_ANSWERS[d]]);
+                    }
+                }
+            }
+        }
+    }
+    v
+}
+
 pub fn run(cli: &Cli) -> (Value, Vec<Violation>) {
     let thorough = cli.thorough();
     let replies: Vec<(&str, Vec<u8>)> = vec![
@@ -276,7 +362,81 @@ pub fn run(cli: &Cli) -> (Value, Vec<Violation>) {
             }
         }
     }
+    // ---- batch family: several keys with different answers in one PTTL/DUMP pipeline ----
+    let cases = batch_cases(thorough);
+    let batch_n = cases.len();
+    let mut batch_restores = 0usize;
+    let cases = std::sync::Arc::new(cases);
+    let next = std::sync::Arc::new(std::sync::atomic::AtomicUsize::new(0));
+    let mut hs = vec![];
+    for _ in 0..16 {
+        let (cases, next) = (cases.clone(), next.clone());
+        hs.push(std::thread::spawn(move || {
+            let mut res = vec![];
+            loop {
+                let i = next.fetch_add(1, std::sync::atomic::Ordering::SeqCst);
+                if i >= cases.len() {
+                    break;
+                }
+                let a = cases[i].clone();
+                let r = vh::det::on_fresh_thread(1000 + i as u64, 32 << 20, move || run_sim(run_batch(a)));
+                res.push((i, r));
+            }
+            res
+        }));
+    }
+    for h in hs {
+        for (i, r) in h.join().expect("join") {
+            let answers = &cases[i];
+            let mut add = |key: String, desc: String| {
+                if viol.iter().filter(|v| v.key == key).count() < 1 {
+                    viol.push(Violation { key, desc, replay: json!({"batch_answers": answers}) });
+                }
+            };
+            let per_key = match r {
+                Ok(Ok(o)) => o,
+                Ok(Err(e)) => {
+                    add("Batch:setup-failed".into(), e);
+                    continue;
+                }
+                Err(_) => {
+                    add("Batch:panicked".into(), format!("the proxy code panicked on batch answers {:?}", answers));
+                    continue;
+                }
+            };
+            for (ki, restores) in per_key.iter().enumerate() {
+                let (pttl, has_dump) = answers[ki];
+                for (ttl, own) in restores {
+                    batch_restores += 1;
+                    classes.insert(format!("Batch/pttl={}/dump={}/restore-ttl={}", pttl, has_dump, ttl));
+                    let t = ttl.parse::<i64>().ok();
+                    let what = format!("batch of {} keys with (PTTL reply, DUMP has payload) = {:?}: key #{} was restored with ttl argument {:?}", answers.len(), answers, ki, ttl);
+                    if !own {
+                        add("Batch:restored-with-another-keys-payload".into(), what.clone());
+                    }
+                    match pttl {
+                        -2 => add("Batch:missing-key-transferred".into(), what),
+                        -1 => {
+                            if ttl != "0" {
+                                add("Batch:persistent-key-not-restored-as-persistent".into(), what);
+                            }
+                        }
+                        p => {
+                            if !matches!(t, Some(x) if x >= 1 && x <= p) {
+                                add("Batch:ttl-not-preserved".into(), what);
+                            }
+                        }
+                    }
+                }
+                if restores.is_empty() && pttl != -2 && has_dump {
+                    add("Batch:consistently-answered-key-not-transferred".into(), format!("batch answers {:?}: key #{} (PTTL {}, DUMP payload present) never reached the destination", answers, ki, pttl));
+                }
+            }
+        }
+    }
+    n += batch_n;
     let cov = json!({
+        "batch_family": {"cases": batch_n, "restores_judged": batch_restores, "rule": "2-3 (thorough 4) keys of the migrating range in one scan batch, each answering from {(-2,nil),(-2,payload),(-1,payload),(-1,nil),(5000,payload),(7,nil)} = (PTTL reply, DUMP reply) - the disagreeing pairs model a key that expires / is deleted / is created between the pipelined PTTL and DUMP; every RESTORE reaching the destination is judged against the PTTL answer of its OWN key"},
         "evaluations": n,
         "distinct_nontrivial": classes.len().max(2),
         "rule": "case = transfer path {background scan, on-demand pull (GET at the destination proxy while the scan is held), push before a deleting command (EXPIRE at the destination proxy => UMSYNC)} x PTTL reply of the source {-2,-1,0,1,2,999,2^31,2^63-1,2^63,'abc','','+5','-0'} scripted on the source stand-in, plus real TTL round trips {persistent, 400 ms, 5 s, 100 s}, plus PTTL replies {-1,1,2,999} from a source whose PTTL/DUMP answers take 12 ms of real and virtual time (longer than the key has left); every case is a complete real migration on 4 real proxies; distinct = distinct (path, reply, RESTORE ttl argument) triples",
